@@ -131,6 +131,28 @@ class SourceTree:
                             if isinstance(d, ast.Attribute) and d.attr == "setter":
                                 key = sub.name + ".setter"
                         ci.methods[key] = fi
+                # methods installed by assignment in the class body: `__lt__ = _make_operator("less")` (a factory returning a closure) or
+                # `__radd__ = __add__` (an alias).  They get a synthetic FunctionDef that forwards to the assigned value, so that every
+                # consumer of ClassInfo.methods sees them like written-out methods.
+                for sub in node.body:
+                    if isinstance(sub, ast.Assign) and len(sub.targets) == 1 and isinstance(sub.targets[0], ast.Name) and sub.targets[0].id not in ci.methods:
+                        nm, val = sub.targets[0].id, sub.value
+                        body = None
+                        if isinstance(val, ast.Name) and val.id in ci.methods:
+                            body = "return self.%s(*args, **kwargs)" % val.id
+                        elif isinstance(val, ast.Call) and isinstance(val.func, ast.Name):
+                            factory = next((f for f in mi.tree.body if isinstance(f, ast.FunctionDef) and f.name == val.func.id), None)
+                            if factory is not None and any(isinstance(x, (ast.FunctionDef, ast.Lambda)) for st in factory.body for x in ast.walk(st)):
+                                body = "return __class_assigned__(self, %r, *args, **kwargs)" % nm
+                        if body is not None:
+                            fn = ast.parse("def %s(self, *args, **kwargs):\n    %s\n" % (nm, body)).body[0]
+                            for x in ast.walk(fn):
+                                if hasattr(x, "lineno"):
+                                    x.lineno = sub.lineno
+                                    x.end_lineno = getattr(sub, "end_lineno", sub.lineno)
+                            fi = FuncInfo(mi, ci, fn)
+                            fi.synthetic = True
+                            ci.methods[nm] = fi
             elif isinstance(node, ast.Assign):
                 for t in node.targets:
                     if isinstance(t, ast.Name):
